@@ -93,10 +93,12 @@ pub fn entries(base: &MpcCase, corrupt: usize, all_idx: bool, salt: usize) -> Re
             "RNG comm" => {
                 let w = wl(&["RNG comm", "RNG ver"]);
                 out.push(one(&format!("coin toss: commitment altered (occ {})", m.label_occ), tm(vec![0], TreeMut::FlipBit(5)), w.clone(), false));
-                if m.label_occ == 1 && n >= 3 && first_copy {
+                if m.label_occ == 1 && n >= 3 {
                     // verified broadcast: different commitments to the two recipients
                     let mut e = one("broadcast equivocation: RNG comm", tm(vec![0], TreeMut::FlipBit(9)), w, false);
                     e.victims = honest.clone();
+                    // an equivocation must be noticed in the echo round itself
+                    e.whitelist = wl(&[m.label.as_str()]);
                     out.push(e);
                 }
             }
@@ -132,9 +134,11 @@ pub fn entries(base: &MpcCase, corrupt: usize, all_idx: bool, salt: usize) -> Re
                     out.push(one("aBit: test bit altered", tm(vec![j, 0], TreeMut::FlipBit(0)), w.clone(), false));
                     out.push(one("aBit: test MAC altered", tm(vec![j, 1], TreeMut::FlipBit((j as u32 * 13) % 128)), w.clone(), false));
                 }
-                if n >= 3 && first_copy {
+                if n >= 3 {
                     let mut e = one("broadcast equivocation: fabitn bits", tm(vec![1, 0], TreeMut::FlipBit(0)), w.clone(), false);
                     e.victims = honest.clone();
+                    // an equivocation must be noticed in the echo round itself
+                    e.whitelist = wl(&[m.label.as_str()]);
                     out.push(e);
                 }
                 if first_copy {
@@ -147,9 +151,11 @@ pub fn entries(base: &MpcCase, corrupt: usize, all_idx: bool, salt: usize) -> Re
                     out.push(one("aShare: commitments to d0 and d1 altered", MsgMut::Multi(vec![(vec![r, 0], TreeMut::FlipBit(1)), (vec![r, 1], TreeMut::FlipBit(1))]), w.clone(), false));
                     out.push(one("aShare: commitment to the MAC/bit string altered", tm(vec![r, 2], TreeMut::FlipBit(2)), w.clone(), false));
                 }
-                if n >= 3 && first_copy {
+                if n >= 3 {
                     let mut e = one("broadcast equivocation: fashare comm", tm(vec![0, 0], TreeMut::FlipBit(0)), w, false);
                     e.victims = honest.clone();
+                    // an equivocation must be noticed in the echo round itself
+                    e.whitelist = wl(&[m.label.as_str()]);
                     out.push(e);
                 }
             }
@@ -170,9 +176,11 @@ pub fn entries(base: &MpcCase, corrupt: usize, all_idx: bool, salt: usize) -> Re
                 if first_copy {
                     out.push(everywhere("aShare: check bit flipped, MACs intact", tm(vec![1], TreeMut::FlipBit(0)), w.clone(), false));
                 }
-                if n >= 3 && first_copy {
+                if n >= 3 {
                     let mut e = one("broadcast equivocation: fashare ver", tm(vec![0], TreeMut::FlipBit(0)), w, false);
                     e.victims = honest.clone();
+                    // an equivocation must be noticed in the echo round itself
+                    e.whitelist = wl(&[m.label.as_str()]);
                     out.push(e);
                 }
             }
@@ -181,9 +189,11 @@ pub fn entries(base: &MpcCase, corrupt: usize, all_idx: bool, salt: usize) -> Re
                 for r in indices(len, all_idx, salt) {
                     out.push(one("aShare: opened key sum altered", tm(vec![r], TreeMut::FlipBit((r as u32 * 3) % 128)), w.clone(), false));
                 }
-                if n >= 3 && first_copy {
+                if n >= 3 {
                     let mut e = one("broadcast equivocation: fashare di_bi", tm(vec![0], TreeMut::FlipBit(0)), w, false);
                     e.victims = honest.clone();
+                    // an equivocation must be noticed in the echo round itself
+                    e.whitelist = wl(&[m.label.as_str()]);
                     out.push(e);
                 }
             }
@@ -203,9 +213,11 @@ pub fn entries(base: &MpcCase, corrupt: usize, all_idx: bool, salt: usize) -> Re
                     let ms = (0..len).map(|l| (vec![l, 1], TreeMut::FlipBit(17))).collect();
                     out.push(one("LaAND: u altered in the same bit for all triples", MsgMut::Multi(ms), w.clone(), false));
                 }
-                if n >= 3 && first_copy {
+                if n >= 3 {
                     let mut e = one("broadcast equivocation: flaand e", tm(vec![0, 0], TreeMut::FlipBit(0)), w, false);
                     e.victims = honest.clone();
+                    // an equivocation must be noticed in the echo round itself
+                    e.whitelist = wl(&[m.label.as_str()]);
                     out.push(e);
                 }
             }
@@ -214,9 +226,11 @@ pub fn entries(base: &MpcCase, corrupt: usize, all_idx: bool, salt: usize) -> Re
                 for l in indices(len, all_idx, salt) {
                     out.push(one("LaAND: commitment altered", tm(vec![l], TreeMut::FlipBit(4)), w.clone(), false));
                 }
-                if n >= 3 && first_copy {
+                if n >= 3 {
                     let mut e = one("broadcast equivocation: flaand comm", tm(vec![0], TreeMut::FlipBit(0)), w, false);
                     e.victims = honest.clone();
+                    // an equivocation must be noticed in the echo round itself
+                    e.whitelist = wl(&[m.label.as_str()]);
                     out.push(e);
                 }
             }
@@ -225,9 +239,11 @@ pub fn entries(base: &MpcCase, corrupt: usize, all_idx: bool, salt: usize) -> Re
                 for l in indices(len, all_idx, salt) {
                     out.push(one("LaAND: check value altered", tm(vec![l], TreeMut::FlipBit(7)), w.clone(), false));
                 }
-                if n >= 3 && first_copy {
+                if n >= 3 {
                     let mut e = one("broadcast equivocation: flaand hash", tm(vec![0], TreeMut::FlipBit(0)), w, false);
                     e.victims = honest.clone();
+                    // an equivocation must be noticed in the echo round itself
+                    e.whitelist = wl(&[m.label.as_str()]);
                     out.push(e);
                 }
             }
@@ -270,8 +286,30 @@ pub fn entries(base: &MpcCase, corrupt: usize, all_idx: bool, salt: usize) -> Re
         out.push(tap("Beaver: own d share altered (tap)", "beaver_d", Some(j), TapAction::Flip, "faand", 0, wl(&["faand"])));
         out.push(tap("Beaver: own e share altered (tap)", "beaver_e", Some(j), TapAction::Flip, "faand", 0, wl(&["faand"])));
     }
-    for r in indices(40, false, salt) {
+    for r in indices(40, all_idx, salt) {
         out.push(tap("aShare: committed and opened check bit flipped, MACs intact (tap)", "fashare_dm", Some(r), TapAction::Flip, "fashare ver", 0, wl(&ASHARE)));
+    }
+    // aBit: the cheater uses other choice bits in the OT extension towards one party than the bit
+    // string it runs the aBit test with (for n=3: other bits than towards the third party).
+    // Index sets: single positions and pairs at the strides at which word/half-word oriented
+    // code could alias coefficients (1, 63, 64, 65, 127, 128).
+    let victim = honest[honest.len() - 1];
+    let mut sets: Vec<Vec<usize>> = vec![vec![0], vec![3 + salt % 60], vec![70], vec![131]];
+    for base_idx in [3usize, 64 + salt % 60] {
+        for d in [1usize, 63, 64, 65, 127, 128] {
+            sets.push(vec![base_idx, base_idx + d]);
+        }
+    }
+    for set in sets {
+        let taps = set.iter().map(|j| TapSpec { site: "ot_choice".into(), idx: Some(victim * 1_000_000 + j), action: TapAction::Flip }).collect();
+        out.push(Entry {
+            row: format!("aBit: other OT choice bits towards one party at {} position(s), stride {}", set.len(), if set.len() == 2 { (set[1] - set[0]).to_string() } else { "-".into() }),
+            attack: AttackCase { taps, ..AttackCase::honest(base.clone(), corrupt) },
+            victims: vec![victim],
+            anchor: Anchor::FirstRecv { label: "fabitn".into(), occ: 0 },
+            whitelist: wl(&["fabitn"]),
+            ot_group: false,
+        });
     }
     Ok(out)
 }
